@@ -1,7 +1,160 @@
 //! E-RTPSD: RtpsStatefulWriter / RtpsStatefulReader objects driven directly by the harness (no DCPS layer, no
 //! executor): the harness owns every datagram and its arrival schedule. Second half of C01, C02, C05.
+//!
+//! `rtpsd <C01|C02|C05> <quick|thorough> [--replay <file>]`
+
+mod exh;
+mod r#gen;
+mod model;
+
+use serde_json::json;
+use vcore::{Ctx, Failure, Known, Meta, Report, pt::CaseOutcome};
+
+use model::Scenario;
+
+fn eval_case(sc: &Scenario) -> CaseOutcome {
+    let out = model::run(sc);
+    let key = vcore::hash_str(&serde_json::to_string(sc).unwrap());
+    let mut co = CaseOutcome::pass(key, out.nontrivial);
+    for c in exh::classes_of(&out) {
+        co.classes.push(c.to_string());
+    }
+    co.sample = Some(json!({
+        "frag": sc.frag, "sizes": sc.sizes, "readers_reliable": sc.readers, "colocated": sc.colocated,
+        "tape_len": sc.tape.len(), "datagrams": out.datagrams, "presented": out.presented, "heal_rounds": out.flags.heal_rounds,
+    }));
+    if let Some(e) = out.harness_error {
+        return co.fail("harness:error", e);
+    }
+    if let Some((s, w)) = out.verdict {
+        return co.fail(s, w);
+    }
+    co
+}
+
+fn rule(prop: &str) -> &'static str {
+    match prop {
+        "C01" => "RTPS-object level: RtpsStatefulWriter + 1-2 RtpsStatefulReader (>=1 RELIABLE) driven directly; (a) exhaustive: every arrival schedule (each datagram of the initial transmission 0, 1 or 2 times, any order, bounded length) of small publication lists, then the heal loop; (b) generated: fragment size 8..=65000, sizes around k*f, history removals, event tape {publish, deliver/drop/duplicate #i, re-deliver old datagram, tick}; non-trivial = a DATA/DATA_FRAG datagram was dropped, duplicated or delivered out of order AND a repair (ACKNACK with bits, NACK_FRAG or GAP) was sent; distinct = exhaustive schedules are distinct by construction, generated cases by hash of the scenario",
+        "C02" => "RTPS-object level: RtpsStatefulWriter + 1-2 RtpsStatefulReader (>=1 BEST_EFFORT) driven directly; the harness sees every CacheChange the reader presents with its raw bytes; (a) exhaustive arrival schedules of small publication lists, (b) generated scenarios; non-trivial = a DATA/DATA_FRAG datagram was dropped, duplicated or delivered out of order; distinct = exhaustive schedules by construction, generated cases by hash of the scenario",
+        _ => "RTPS-object level: fragmenting writer and reassembling reader objects driven directly (RELIABLE and BEST_EFFORT readers); (a) exhaustive arrival schedules over the DATA_FRAG datagrams of small fragmented publication lists with last-fragment remainders k*f-1, k*f, k*f+1, (b) generated scenarios with fragment sizes over 8..=65000 and samples of up to 7 (occasionally > 256) fragments; non-trivial = the sample was fragmented on the wire AND a DATA_FRAG datagram was dropped, duplicated or delivered out of order; distinct = exhaustive schedules by construction, generated cases by hash of the scenario",
+    }
+}
+
+const ASSUMPTIONS: &[&str] = &[
+    "the harness is the transport (WriteMessage), the clock and the message receiver: datagrams are parsed with RtpsMessageRead, iterated with dust-dds' own MessageReceiver and dispatched with the same calls and validity pre-checks as DcpsDomainParticipant::handle_data (reader-id and INFO_DST are not filtered there, so not here)",
+    "reader and writer proxies are built as the discovery code builds them (reliability of the proxy = reliability of the reader; match before the first publication; VOLATILE)",
+    "every presented CacheChange is taken from RtpsStatefulReader::changes_mut() right after the datagram that produced it, like process_user_defined_received_cache_changes does",
+    "after the event tape the network is fault-free: remaining publications are made, everything in flight is delivered in order; with a RELIABLE reader up to 200 rounds of {writer.write_message, deliver all, advance 200 ms (the heartbeat period)}",
+    "history removals model lifespan expiry / best-effort KEEP_LAST (unconditional) and the reliable KEEP_LAST rule (oldest sample, only when is_change_acknowledged); a sample released under the second rule must still reach every reliable reader",
+];
+
+const BUILTIN_CASES: &[(&str, &str)] = &[
+    ("colocated-readers-truncated-reassembly", include_str!("../cases/colocated-readers-truncated-reassembly.json")),
+    ("colocated-readers-nackfrag-expect-panic", include_str!("../cases/colocated-readers-nackfrag-expect-panic.json")),
+    ("stale-fragments-of-removed-sample-block-acknack", include_str!("../cases/stale-fragments-of-removed-sample-block-acknack.json")),
+    ("nackfrag-span-over-256-fragments-panic", include_str!("../cases/nackfrag-span-over-256-fragments-panic.json")),
+];
+
 fn main() {
-    let ctx = vcore::Ctx::from_args();
-    eprintln!("rtpsd: property {} not implemented yet", ctx.id);
-    std::process::exit(2);
+    let ctx = Ctx::from_args();
+    let prop: &'static str = match ctx.id.as_str() {
+        "C01" => "C01",
+        "C02" => "C02",
+        "C05" => "C05",
+        o => {
+            eprintln!("rtpsd: property {o} is not served by this engine (C01, C02, C05)");
+            std::process::exit(2);
+        }
+    };
+    model::install_panic_hook();
+    let meta = |floor| Meta { rule: rule(prop), assumptions: ASSUMPTIONS, nontrivial_floor: floor };
+
+    if let Some(path) = &ctx.replay {
+        let v = vcore::load_replay(path);
+        if v.get("engine").and_then(|e| e.as_str()) != Some("rtpsd") {
+            eprintln!("rtpsd: {path:?} is not a replay file of this engine");
+            std::process::exit(2);
+        }
+        let mut sc: Scenario = match serde_json::from_value(v.clone()) {
+            Ok(s) => s,
+            Err(e) => {
+                eprintln!("rtpsd: cannot decode the scenario: {e}");
+                std::process::exit(2);
+            }
+        };
+        sc.prop = prop.to_string();
+        let out = model::run(&sc);
+        println!("replay {}: fragment size {}, sizes {:?}, readers reliable {:?}, colocated {}, tape {} events", prop, sc.frag, sc.sizes, sc.readers, sc.colocated, sc.tape.len());
+        println!("  datagrams sent in total: {}, heal rounds: {}", out.datagrams, out.flags.heal_rounds);
+        for (i, p) in out.presented.iter().enumerate() {
+            println!("  reader {i} presented sequence numbers {:?}", p);
+        }
+        println!("  wire: {:?}", out.flags);
+        let mut report = Report::default();
+        if let Some(e) = out.harness_error {
+            report.inconclusive.push(e);
+        }
+        match out.verdict {
+            Some((signature, what)) => {
+                println!("  verdict: {signature}: {what}");
+                report.failures.push(Failure { signature, what, case: v, shrunk_from: None, shrunk_to: None });
+            }
+            None => println!("  verdict: pass"),
+        }
+        vcore::finish(&ctx, meta(0), report);
+    }
+
+    let thorough = ctx.tier == vcore::Tier::Thorough;
+    let known = Known::load(&ctx.id);
+    let mut report = Report::default();
+
+    // minimal scenarios of the findings of this engine (kept as regression cases) + saved regression cases
+    let builtin: Vec<(String, serde_json::Value)> = BUILTIN_CASES.iter().map(|(n, s)| (n.to_string(), serde_json::from_str(s).expect("builtin case"))).collect();
+    for (name, case) in builtin.into_iter().chain(vcore::regress_cases(prop)) {
+        if case.get("engine").and_then(|e| e.as_str()) != Some("rtpsd") {
+            continue;
+        }
+        let Ok(mut sc) = serde_json::from_value::<Scenario>(case.clone()) else { continue };
+        sc.prop = prop.to_string();
+        let out = eval_case(&sc);
+        report.stats.case(out.key, out.nontrivial, &out.classes);
+        report.stats.class("regress_case");
+        if let Some((signature, what)) = out.verdict {
+            if known.matches(&signature) {
+                *report.stats.excluded_known.entry(signature).or_insert(0) += 1;
+            } else {
+                report.failures.push(Failure { signature, what: format!("{what} [regress/{name}]"), case, shrunk_from: None, shrunk_to: None });
+            }
+        }
+    }
+
+    // (1) exhaustive small-scope enumeration
+    let mut per_template = serde_json::Map::new();
+    let mut schedules = 0u64;
+    for tp in exh::templates(prop, thorough) {
+        let n = exh::enumerate(prop, &tp, &mut report.stats, &known, &mut report.failures);
+        per_template.insert(tp.name.clone(), json!({"schedules": n, "max_len": tp.max_len, "frag": tp.frag, "sizes": tp.sizes}));
+        schedules += n;
+    }
+    report.stats.extra.insert("exhaustive".into(), json!(true));
+    report.stats.extra.insert("exhaustive_schedules".into(), json!(schedules));
+    report.stats.extra.insert("exhaustive_templates".into(), serde_json::Value::Object(per_template));
+
+    // (2) generated scenarios
+    let cases: u32 = ctx.pick(25_000, 1_000_000);
+    report.stats.extra.insert("generated_cases".into(), json!(cases));
+    let strat = r#gen::strategy(prop, thorough);
+    if let Some(f) = vcore::pt::run_cases(
+        cases,
+        ctx.rng_seed("generated"),
+        2000,
+        &strat,
+        &mut report.stats,
+        &known,
+        eval_case,
+        |sc| serde_json::to_value(sc).unwrap(),
+    ) {
+        report.failures.push(f);
+    }
+    vcore::finish(&ctx, meta(ctx.pick(5_000, 50_000)), report);
 }
